@@ -291,7 +291,7 @@ P2Roots == {<<I, K>> : I \in 2..3, K \in 1..MaxDim}
 \* the rank / column count one too large, -1: one too small -- down to rank 0 and boundary rank 0).
 \* Both directions matter: a validator that only looks for an excess (or only for a deficit) is wrong.
 Rec(op, s, r, hw, ls) == [op |-> op, shape |-> s, rank |-> r, hasw |-> hw, lens |-> ls, bad |-> "none", at |-> 0, dl |-> 0,
-                          skip |-> -1, tr |-> FALSE, modes |-> <<>>, mix |-> "none"]
+                          skip |-> -1, tr |-> FALSE, modes |-> <<>>, mix |-> "none", late |-> FALSE, mag |-> 0]
 \* Mixed storage types across the parts of ONE factorised tensor (valid family).  "<type>_first/last":
 \* the first / last factor (core, for TT-like formats) is stored as int64, float32 or complex128, every
 \* other array as float64.  Non-integer arrays hold half-integers (numerators over the denominator 2
@@ -301,8 +301,17 @@ Rec(op, s, r, hw, ls) == [op |-> op, shape |-> s, rank |-> r, hasw |-> hw, lens 
 \* result over PROD dens (MixHomogeneous), and a complex part a + ib gives Dense(a) + i Dense(b)
 \* (MixAdditive) -- both TLC-checked below, and used by the trace specification.
 MixNames == {"int_first", "int_last", "f32_first", "f32_last", "cplx_first", "cplx_last"}
-MixCfgs(base) == IF base.op # "p2" /\ (Size(base.shape) > MaxBadSize \/ Len(base.shape) > 3) THEN {}
+\* MAGNITUDE: one factor column (one whole core for the chain formats) is scaled by 2^mag and the compensating
+\* 2^-mag sits in the weights / another factor / the core slice / another core.  Powers of two are exact in
+\* floating point and the scaling can be moved between the parts of a component (MagMove, TLC-checked), so
+\* the represented tensor is exactly that of the integer numerators: every clause keeps its exact form.
+Mags == {-500, -70, 300}
+\* LATE: the wrapper object is first built from ANOTHER valid configuration (BaseOf) and all its parts are
+\* then replaced by item / attribute assignment -- by the (valid or invalid) parts of this configuration.
+\* A valid result must convert to the NEW contraction, an invalid one must be refused by every conversion.
+MixCfgs(base) == IF base.op \notin {"p2", "ttm"} /\ (Size(base.shape) > MaxBadSize \/ Len(base.shape) > 3) THEN {}
                  ELSE {[base EXCEPT !.mix = m] : m \in MixNames}
+                      \cup {[base EXCEPT !.mag = e] : e \in Mags} \cup {[base EXCEPT !.late = TRUE]}
 MixType(c) == CASE c.mix \in {"int_first", "int_last"} -> "int64"
                 [] c.mix \in {"f32_first", "f32_last"} -> "float32"
                 [] c.mix \in {"cplx_first", "cplx_last"} -> "complex128"
@@ -324,7 +333,9 @@ TuckerOptCfgs(s) ==
        : r \in rs}
 Perturb(base, names, ats, dls) ==
     IF base.op # "p2" /\ Size(base.shape) > MaxBadSize THEN {}
-    ELSE {[base EXCEPT !.bad = b, !.at = k, !.dl = d] : b \in names, k \in ats, d \in dls}
+    ELSE LET S == {[base EXCEPT !.bad = b, !.at = k, !.dl = d] : b \in names, k \in ats, d \in dls} IN
+         \* ... and the same invalid parts assigned to an already constructed (valid) wrapper object
+         S \cup {[x EXCEPT !.late = TRUE] : x \in {y \in S : Len(y.shape) <= 2 \/ (Len(y.shape) = 3 /\ Size(y.shape) <= 4) \/ y.op = "p2"}}
 NonOrthNames == {"nonorth_double", "nonorth_scaled", "nonorth_skew",            \* Gram deviation > 0
                  "nonorth_zero", "nonorth_allzero", "nonorth_negdup", "nonorth_half"}   \* Gram deviation < 0
 CfgsOf(root) ==
@@ -353,7 +364,7 @@ CfgsOf(root) ==
       [] kd = "ttm" ->
             LET d == N \div 2 IN
             {Rec("ttm", s, <<1>> \o r \o <<1>>, FALSE, <<>>) : r \in [1..(d - 1) -> 1..MaxRank]}
-            \cup (IF Size(s) <= MaxBadSize THEN {[Rec("ttm", s, <<1>> \o twos(d - 1) \o <<1>>, FALSE, <<>>) EXCEPT !.mix = m] : m \in MixNames} ELSE {})
+            \cup (IF Size(s) <= MaxBadSize THEN MixCfgs(Rec("ttm", s, <<1>> \o twos(d - 1) \o <<1>>, FALSE, <<>>)) ELSE {})
             \cup Perturb(Rec("ttm", s, <<1>> \o twos(d - 1) \o <<1>>, FALSE, <<>>), {"chain"}, 1..(d - 1), {1, -1})
             \cup Perturb(Rec("ttm", s, <<1>> \o twos(d - 1) \o <<1>>, FALSE, <<>>), {"bound_first", "bound_last"}, {0}, {1, -1})
       [] kd = "p2" ->
@@ -395,6 +406,16 @@ PShapes(c) ==
                        THEN (IF c.dl = 1 THEN <<c.lens[i] + 1, c.rank[1] + 1>> ELSE <<c.lens[i], c.rank[1] - 1>>)
                        ELSE <<c.lens[i], c.rank[1]>>]
          IN  IF c.bad = "nproj" THEN Tail(all) ELSE all
+RotL(q) == IF Len(q) <= 1 THEN q ELSE Tail(q) \o <<Head(q)>>
+BaseOf(c) ==
+    IF c.bad # "none" THEN [c EXCEPT !.bad = "none", !.at = 0, !.dl = 0]        \* the unperturbed valid configuration
+    ELSE LET N == Len(c.shape)  r == c.rank IN                                   \* other mode sizes, other ranks
+         CASE c.op = "cp"     -> [c EXCEPT !.shape = RotL(c.shape), !.rank = <<(r[1] % MaxRank) + 1>>]
+           [] c.op = "tucker" -> [c EXCEPT !.shape = RotL(c.shape), !.rank = RotL(r)]
+           [] c.op = "tt"     -> [c EXCEPT !.shape = RotL(c.shape), !.rank = <<1>> \o RotL(SubSeq(r, 2, N)) \o <<1>>]
+           [] c.op = "tr"     -> [c EXCEPT !.shape = RotL(c.shape), !.rank = RotL(SubSeq(r, 1, N)) \o <<r[2]>>]
+           [] c.op = "ttm"    -> [c EXCEPT !.shape = RotL(c.shape)]
+           [] c.op = "p2"     -> [c EXCEPT !.lens = RotL(c.lens)]
 MixAt(c) == IF c.mix \in {"int_first", "f32_first", "cplx_first"} THEN 1 ELSE Len(FactorShapes(c))
 \* the exported configuration: the record above plus the array shapes the harness has to fill
 Expand(c) ==
@@ -407,7 +428,12 @@ Expand(c) ==
      coreshape |-> IF c.op = "tucker" THEN (IF c.tr THEN c.shape ELSE c.rank) ELSE <<>>,
      pshapes |-> PShapes(c),
      pden |-> IF c.bad = "nonorth_half" THEN 2 ELSE 1,
-     mix |-> c.mix,
+     mix |-> c.mix, late |-> c.late, mag |-> c.mag,
+     \* LATE: array shapes of the valid configuration the wrapper object is built from before its parts are replaced
+     bfshapes |-> IF c.late THEN FactorShapes(BaseOf(c)) ELSE <<>>,
+     bcoreshape |-> IF c.late /\ c.op = "tucker" THEN BaseOf(c).rank ELSE <<>>,
+     bpshapes |-> IF c.late THEN PShapes(BaseOf(c)) ELSE <<>>,
+     bwlen |-> IF c.late /\ c.hasw THEN BaseOf(c).rank[1] ELSE 0,
      \* storage type and denominator of every factor array, the position of the complex one (0: none),
      \* the denominator of the Tucker core, and the promoted type every view must come back in
      dtypes |-> [k \in 1..Len(FactorShapes(c)) |-> IF c.mix # "none" /\ k = MixAt(c) THEN MixType(c) ELSE "float64"],
@@ -491,11 +517,24 @@ MixCfgOK(c) ==      \* multilinearity in the distinguished part: what makes nume
     /\ \A j \in 1..Len(in.fs) : Dense(kd, [in EXCEPT !.fs[j] = ScaleT(in.fs[j], 2)]) = ScaleT(D, 2)              \* MixHomogeneous
     /\ (kd = "tucker" => TuckerDense([in EXCEPT !.core = ScaleT(in.core, 2)]) = ScaleT(D, 2))
 
+\* a scaling can be moved between the parts of one component without changing the represented tensor
+ScaleCol(F, r, a) == Build(F.shape, LAMBDA p : IF p[2] = r THEN a * E2(F, p[1], p[2]) ELSE E2(F, p[1], p[2]))
+MagMove(kd, in) ==
+    LET a == 2  X == Dense(kd, [in EXCEPT !.fs[1] = IF kd \in {"cp", "p2", "tucker"} THEN ScaleCol(in.fs[1], 0, a) ELSE ScaleT(in.fs[1], a)]) IN
+    CASE kd \in {"cp", "p2"} ->
+            /\ X = Dense(kd, [in EXCEPT !.fs[3 - (IF kd = "p2" THEN 0 ELSE 1)] = ScaleCol(@, 0, a)])      \* another factor's column
+            /\ (in.hasw => X = Dense(kd, [in EXCEPT !.w[1] = a * @]))                                       \* the weight
+      [] kd = "tucker" ->
+            X = TuckerDense([in EXCEPT !.core = Build(in.core.shape, LAMBDA g : IF g[1] = 0 THEN a * At(in.core, g) ELSE At(in.core, g))])
+      [] OTHER -> Len(in.fs) = 1 \/ X = Dense(kd, [in EXCEPT !.fs[2] = ScaleT(@, a)])                       \* another core
+
 CfgOK(c) ==
     IF c.mix # "none" THEN MixCfgOK(c) ELSE
     IF HasOpt(c) THEN OptCfgOK(c) ELSE
     LET in == GenIn(c)  kd == c.op IN
     /\ ValidCfg(c)
+    /\ (c.late => ValidCfg(BaseOf(c)) /\ Valid(kd, GenIn(BaseOf(c))))      \* the object is built from a valid configuration
+    /\ (c.mag # 0 => c.bad = "none" /\ MagMove(kd, in))
     /\ ClassOf(kd, in) = ClassOfBad(c)                  \* the perturbation table and the predicates agree
     /\ (ClassOfBad(c) \in {"ranks", "boundary", "orth"} <=> MustReject(kd, in))
     \* the non-orthonormal family really contains Gram deviations of both signs
